@@ -291,9 +291,10 @@ def _vm_crosscheck_chunk(lines, outputs, spec, tag):
                 "  (combine (map N.of_nat (seq 0 (length cases))) cases).\n" % ("true" if spec else "false"))
         f.write("Eval vm_compute in (map fst bad).\n")
     # a large stack: the parser and the .vo writer recurse over the long byte-list literals
-    # time allowed: a minute and a half plus 15 s per case, at most 15 minutes; a chunk that needs more is halved
-    # by the caller, a single case that needs more than 105 s of vm_compute is left out (and counted)
-    limit = min(900, 90 + 15 * len(lines))
+    # time allowed: four minutes (loading the library on a busy machine takes a good part of one) plus 30 s per
+    # case, at most 20 minutes; a chunk that needs more is halved by the caller, a single case that needs more than
+    # 270 s is left out (and counted)
+    limit = min(1200, 240 + 30 * len(lines))
     rc, out = sh("ulimit -s unlimited 2>/dev/null || ulimit -s 1000000 2>/dev/null; "
                  "exec timeout %d coqc -noglob -Q %s WF %s" % (limit, os.path.join(COQ, "theories"), path),
                  cwd=WORK, timeout=limit + 100)
